@@ -102,14 +102,14 @@ def check_C14(ctx, unit):
                         else:
                             s = s - {l.d["d"]}
                 if n.kind == "ArraySubscriptExpr":
-                    i = n.children[1].strip()
+                    i = std_unwrap(n.children[1])
                     if i.kind == "DeclRefExpr" and i.d["d"] in idx and i.d["d"] not in s:
                         stale_hits[n.id] = i.n
                 return [s]
             flow.run(f, [frozenset()], transfer, None)
             k = 0
             for n in subs:
-                i = n.children[1].strip()
+                i = std_unwrap(n.children[1])
                 if not (i.kind == "DeclRefExpr" and i.d["d"] in idx):
                     continue
                 k += 1
@@ -124,7 +124,7 @@ def check_C14(ctx, unit):
                 base = canon(n.children[0])
                 if base not in pair:
                     continue
-                i = n.children[1].strip()
+                i = std_unwrap(n.children[1])
                 capc = None
                 if i.kind == "DeclRefExpr" and i.d["d"] in idx:
                     capc = canon(idx[i.d["d"]][1])
